@@ -522,7 +522,9 @@ def check_terms(name, equal, note=""):
     c = CTX
     st = "proved" if equal else "failed-weak"
     o = Obl(c.prefix + name, st, None if equal else {}, "term-equality", 0.0, c.path_index, note, None, "ensures")
-    c.obls.append(o)
+    rp = getattr(c, "record_prefixes", None)
+    if rp is None or name.startswith(rp) or not name[:1] == "C":
+        c.obls.append(o)
     return equal
 
 
